@@ -223,6 +223,26 @@ theorem settleIx_idempotent {s s' : Settle} {p q : Passed} {amt : Nat} (h : sett
   obtain ⟨_, _, h0, _, _, _⟩ := settleIx_bounds h
   simp [settleIx, h0]
 
+/-- settlement pointed at any escrow other than the order's recorded final-output escrow (e.g. the
+order's token account of another mint) is rejected, whatever the record and the balances. -/
+theorem settle_foreign_escrow_rejected (s : Settle) (p : Passed) :
+    settleWith s p false = .error .mismatched := by
+  simp [settleWith]
+
+/-- a successful settlement therefore used the recorded final-output escrow, and obeys all the
+bounds of `settleIx_bounds` on THAT escrow. -/
+theorem settleWith_ok {s s' : Settle} {p : Passed} {b : Bool} {amt : Nat}
+    (h : settleWith s p b = .ok (s', amt)) :
+    b = true ∧ amt ≤ s.recorded ∧ amt ≤ s.escrow ∧ s'.recorded = 0 ∧ s'.escrow + amt = s.escrow ∧
+      s'.vault = s.vault + amt := by
+  unfold settleWith at h
+  cases b with
+  | false => simp at h
+  | true =>
+    simp only [Bool.not_true, Bool.false_eq_true, if_false] at h
+    obtain ⟨a, b', c, d, e, _⟩ := settleIx_bounds h
+    exact ⟨rfl, a, b', c, d, e⟩
+
 /-! ### Histories: charges, decreases and (repeated) settlements on one order -/
 
 theorem step_preserves_backing (U : Nat) (s : Settle) (op : Op) (h : s.recorded ≤ s.escrow) :
@@ -299,6 +319,8 @@ example : settle ⟨42, 40, 1⟩ = some (⟨0, 0, 41⟩, 40) := by decide
 example : settle ⟨0, 40, 1⟩ = some (⟨0, 40, 1⟩, 0) := by decide
 example : settleIx ⟨42, 40, 1⟩ .builder = .ok (⟨0, 0, 41⟩, 40) := by rfl
 example : settleIx ⟨42, 40, 1⟩ .none = .error .notProvided := by rfl
+example : settleWith ⟨42, 40, 1⟩ .builder true = .ok (⟨0, 0, 41⟩, 40) := by rfl
+example : settleWith ⟨0, 40, 1⟩ .builder false = .error .mismatched := by rfl
 example : (run (10 ^ 20) ⟨0, 0, 0⟩ [.inc 60 (100000 * 10 ^ 20) (10 ^ 17) (2 * 10 ^ 20),
     .dec (100000 * 10 ^ 20) (10 ^ 17) (2 * 10 ^ 20) 7, .settle, .settle]) = ⟨0, 0, 57⟩ := by decide
 
